@@ -270,9 +270,7 @@ func (h *vfE2H) start(cfg vfE2Cfg) {
 	h.dir = dir
 	opts := NewOptions()
 	opts.Logger = vfE2NopLogger{}
-	opts.TCPAddress = "127.0.0.1:0"
-	opts.HTTPAddress = "127.0.0.1:0"
-	opts.HTTPSAddress = "127.0.0.1:0"
+	opts.TCPAddress, opts.HTTPAddress, opts.HTTPSAddress = vfLoop3()
 	opts.DataPath = dir
 	opts.MemQueueSize = int64(cfg.memq)
 	opts.MaxBytesPerFile = cfg.maxfile
